@@ -3,6 +3,7 @@ import Arc.Proofs.C22.SMapLemmas
 import Arc.Generated.C23
 import Arc.Proofs.C22.RestoreParents
 import Arc.Model.C22.PreFix
+import Arc.Proofs.C22.Members
 /-!
 # C23 — cluster role assignments stay consistent
 
@@ -364,6 +365,19 @@ theorem C23_rbac_cascade_index_complete (evs : List Ev) :
       get2? a.memByToken e.token k = some () ∧ get2? a.memByTeam e.team k = some ()) :=
   let h := pinv_runEv State.empty evs pinv_empty
   ⟨h.c1, h.c2, h.c3, h.c4⟩
+
+/-- **C23_membership_indexes_sound.** For histories with strictly increasing log indexes: every
+entry of `tokenMembershipsByTeam` / `…ByToken` / `…ByPair` points at a membership record that exists
+and carries that team / token — together with `C23_rbac_cascade_index_complete` the cascades walk
+exactly the memberships of the team (token) being deleted, no more and no fewer. -/
+theorem C23_membership_indexes_sound (evs : List Ev) (hinc : idxIncreasing 1 evs = true) :
+    let a := (runEv State.empty evs).au
+    (∀ tm id, get2? a.memByTeam tm id = some () → ∃ e, a.members.get? id = some e ∧ e.team = tm) ∧
+    (∀ tok id, get2? a.memByToken tok id = some () → ∃ e, a.members.get? id = some e ∧ e.token = tok) ∧
+    (∀ tok tm id, get2? a.memByPair tok tm = some id →
+        ∃ e, a.members.get? id = some e ∧ e.token = tok ∧ e.team = tm) :=
+  let h := memInv_runEv State.empty 1 evs (memInv_empty _) hinc
+  ⟨h.s3, h.s2, h.s1⟩
 
 /-- non-vacuity: a history that builds the whole hierarchy, restores, and cascades a delete -/
 example :
